@@ -55,6 +55,8 @@ type Set struct {
 	origRoutes string
 	// publishedDuringCleanup: the user published another revision while the cleanup of a completed release was running
 	publishedDuringCleanup bool // state of the BatchRelease when the user's last exit action was written: none | deleting | live
+	// restartedAfterFullUpdate: the user reverted / superseded the release when no pod of the stable revision was left
+	restartedAfterFullUpdate bool
 
 	st01 c01state
 	st02 c02state
@@ -329,6 +331,13 @@ func (s *Set) Finish() []Violation {
 // ---- C04: no request is ever routed into a void ---------------------------------------------------------
 
 func (s *Set) c04(w *simapi.Write, v *simapi.View) {
+	if w.Actor == "user" && w.Key == s.S.WorkloadKey() && w.Before != nil && w.After != nil && workloadImage(w.Before) != workloadImage(w.After) && s.phase == "Progressing" {
+		// the user reverts / supersedes the release: remember whether every pod had already been updated by then (the
+		// Rollout then takes the abandoned revision for the stable one when it restarts at step 1)
+		if tot, _ := s.podsByImage(v); tot[s.stableImg] == 0 && len(tot) > 0 {
+			s.restartedAfterFullUpdate = true
+		}
+	}
 	if !s.S.HasTraffic() {
 		return
 	}
@@ -408,7 +417,7 @@ func (s *Set) c04(w *simapi.Write, v *simapi.View) {
 					if s.publishedDuringCleanup {
 						how = "revision-published-during-cleanup"
 					}
-					if restarted && s.isRealPartitionStyle() && tot[s.stableImg] == 0 {
+					if restarted && s.isRealPartitionStyle() && (tot[s.stableImg] == 0 || s.restartedAfterFullUpdate) {
 						// the user reverted / superseded a partition-style release after every pod had been updated: no pod of
 						// the stable revision is left, the Rollout restarts at step 1 and pins the stable Service to it
 						how = "release-restarted-after-every-pod-was-updated"
